@@ -32,7 +32,7 @@ def vboom(fid, x):
 
 
 EXC = {'NameError': NameError, 'KeyError': KeyError, 'AssertionError': AssertionError,
-       'UnboundLocalError': UnboundLocalError, 'AttributeError': AttributeError}
+       'UnboundLocalError': UnboundLocalError, 'AttributeError': AttributeError, 'RecursionError': RecursionError}
 
 
 def vtick(fid, x):
